@@ -93,6 +93,8 @@ PropClauses(c, ver, lib, cpylines, insp, removal) ==
         <<"P13.targets", same => {lib.block_starts[b] : b \in 1..nb} = {0} \cup targetIdx>>,
         <<"P13.jump_range", ok => \A j \in 1..nl : li[j][2] = "J" => (li[j][3] >= 0 /\ li[j][3] < nb)>>,
         \* ---------------- C04
+        \* a function-like code object (one the interpreter can wrap in a function: insp.ok) is decoded at all
+        <<"P04.decodes", insp.ok => ok>>,
         <<"P04.is_fn", ok => lib.is_fn = FnLike(c)>>,
         <<"P04.params", (ok /\ insp.ok) => lib.params = insp.bind>>,
         <<"P04.len", (ok /\ insp.ok) => lib.nargs = Len(insp.bind)>>,
